@@ -44,6 +44,7 @@ Fixpoint total (d : Z) (m : kmap) : Z :=
   end.
 
 Definition memz (x : Z) (l : list Z) : bool := existsb (Z.eqb x) l.
+Definition list_eqb (a b : list Z) : bool := if list_eq_dec Z.eq_dec a b then true else false.
 
 Fixpoint lookup {A} (k : Z) (l : list (Z * A)) : option A :=
   match l with
@@ -81,7 +82,7 @@ Record cstate := mkC {
   c_memo : Z;                  (* the ConsumerId param put in the transfer memo *)
   c_chan : Z;                  (* provider-side transfer channel of this chain *)
   c_to_pool : bool;            (* ProviderFeePoolAddrStr is the provider's consumer_rewards_pool address *)
-  c_dmap : list (Z * Z);       (* consumer denom -> provider denom of the received voucher / unescrowed coin *)
+  c_dmap : list (Z * list Z);  (* consumer denom -> ICS-20 packet denom (segments) under which it is sent *)
   g_fees : kmap;               (* ghost: fees ever collected, (0, denom) *)
   g_deliv : kmap               (* ghost: amounts successfully received by the provider, (0, denom) *)
 }.
@@ -187,7 +188,9 @@ Record conf := mkF {
   epochs : Z; bpe : Z;               (* NumberOfEpochsToStartReceivingRewards, BlocksPerEpoch *)
   cons : list cinfo;                 (* consumers, ascending id *)
   chans : list (Z * Z);              (* transfer channel -> consumer bound to the channel's client *)
-  minrate : Z                        (* staking MinCommissionRate *)
+  minrate : Z;                       (* staking MinCommissionRate *)
+  dtab : list (list Z * Z)           (* denom key (see below) -> denom id; the sha256 of ibc/HASH denoms is
+                                        abstracted by this injective table, computed per case by the driver *)
 }.
 
 Record money := mkM {
@@ -354,6 +357,56 @@ Definition alloc_consumer (env : benv) (f : conf) (m : money) (i : cinfo) : mone
 Definition begin_block (env : benv) (f : conf) (m : money) : money :=
   if 1 <? b_h env then fold_left (alloc_consumer env f) (cons f) m else m.
 
+(* ---- denominations of ICS-20 packets.  A denom string is its list of "/"-separated segments, as integers:
+   1 = "transfer", 1000+N = "channel-N", 2000+N = "07-tendermint-N", anything else = a base-denom segment.
+   A denom key is 0 :: segs for a denom used verbatim (native / raw string) and 1 :: segs for
+   "ibc/" + sha256(segs joined by "/"); [denom_id (dtab f)] maps keys to the denom ids of the balance maps. *)
+Definition PORT : Z := 1.
+Definition SRC_CHAN : Z := 1001.                       (* the transfer channel id on every consumer chain *)
+Definition dst_chan (ch : Z) : Z := 1010 + ch.         (* provider-side transfer channel number ch *)
+Definition is_chan (z : Z) : bool := (1000 <=? z) && (z <? 2000).            (* channeltypes.IsValidChannelID *)
+Definition is_chan_or_client (z : Z) : bool := (1000 <=? z) && (z <? 3000).  (* ibc-go v10: || IsValidClientID *)
+
+(* the loop of extractPathAndBaseFromFullDenom (x/ccv/types/denom_helpers.go) and of ibc-go's
+   ExtractDenomFromPath: (port, channel) pairs while the second segment is a channel id and the whole
+   denom has more than 2 segments; the rest is the base denom *)
+Fixpoint parse_hops (isc : Z -> bool) (gt2 : bool) (l : list Z) : list Z * list Z :=
+  match l with
+  | p :: c :: r => if gt2 && isc c then let '(pa, b) := parse_hops isc gt2 r in (p :: c :: pa, b) else ([], l)
+  | _ => ([], l)
+  end.
+Definition denom_trace (isc : Z -> bool) (l : list Z) : list Z * list Z :=
+  parse_hops isc (2 <? Z.of_nat (length l)) l.
+
+(* ReceiverChainIsSource: strings.HasPrefix(denom, port + "/" + channel + "/") *)
+Definition has_prefix (sp sc : Z) (l : list Z) : bool :=
+  match l with p :: c :: _ :: _ => (p =? sp) && (c =? sc) | _ => false end.
+
+(* GetProviderDenom (x/ccv/provider/ibc_middleware.go): the denom under which the reward is credited *)
+Definition provider_denom_key (sp sc dp dc : Z) (l : list Z) : list Z :=
+  if has_prefix sp sc l then
+    let un := skipn 2 l in                                   (* unprefixedDenom *)
+    let '(path, _) := denom_trace is_chan un in              (* ParseDenomTrace(unprefixedDenom) *)
+    match path with [] => 0 :: un | _ => 1 :: un end         (* Path == "" ? the string itself : IBCDenom() *)
+  else
+    let pre := dp :: dc :: l in                              (* GetPrefixedDenom(destPort, destChannel, denom) *)
+    let '(path, base) := denom_trace is_chan pre in          (* ParseDenomTrace(prefixedDenom).IBCDenom() *)
+    match path with [] => 0 :: base | _ => 1 :: (path ++ base) end.
+
+(* ibc-go v10 transfer keeper OnRecvPacket: the denom under which the coins are unescrowed / minted *)
+Definition ics20_key (sp sc dp dc : Z) (l : list Z) : list Z :=
+  let '(trace, base) := denom_trace is_chan_or_client l in   (* ExtractDenomFromPath *)
+  if (match trace with p :: c :: _ => (p =? sp) && (c =? sc) | _ => false end)   (* Denom.HasPrefix(source) *)
+  then match skipn 2 trace with [] => 0 :: base | tr => 1 :: (tr ++ base) end    (* Trace[1:], IBCDenom() *)
+  else 1 :: (dp :: dc :: trace ++ base).                     (* prepend the destination hop, IBCDenom() *)
+
+Definition denom_id (tab : list (list Z * Z)) (k : list Z) : Z :=
+  match find (fun e => list_eqb (fst e) k) tab with Some e => snd e | None => -1 end.
+Definition cred_denom (f : conf) (ch : Z) (l : list Z) : Z :=
+  denom_id (dtab f) (provider_denom_key PORT SRC_CHAN PORT (dst_chan ch) l).
+Definition bank_denom (f : conf) (ch : Z) (l : list Z) : Z :=
+  denom_id (dtab f) (ics20_key PORT SRC_CHAN PORT (dst_chan ch) l).
+
 (* ---- transfer middleware (OnRecvPacket) ---- *)
 (* IdentifyConsumerIdFromIBCPacket *)
 Definition identify (ch : Z) (f : conf) : option Z :=
@@ -369,11 +422,11 @@ Definition identify (ch : Z) (f : conf) : option Z :=
 (* memo: -1 = not JSON (falls back to the channel), -2 = JSON without "provider" (consumer id ""),
    k >= 0 = reward memo naming consumer k.
    ack_ok: the wrapped transfer app returned a successful acknowledgement (and credited the receiver). *)
-Definition receive (ch memo d amt : Z) (ack_ok to_pool : bool) (f : conf) (m : money) : money :=
+Definition receive (ch memo db d amt : Z) (ack_ok to_pool : bool) (f : conf) (m : money) : money :=
   if negb ack_ok then m
   else
-    let m1 := mkM (add ((if to_pool then POOL else OTHER), d) amt (bank m)) (cpool m) (outst m) (comm m) (alloc m)
-                  (g_cred m) (g_pv m) (g_pc m) (g_dust m) (g_forf m) (add (0, d) amt (g_mint m)) (log m) in
+    let m1 := mkM (add ((if to_pool then POOL else OTHER), db) amt (bank m)) (cpool m) (outst m) (comm m) (alloc m)
+                  (g_cred m) (g_pv m) (g_pc m) (g_dust m) (g_forf m) (add (0, db) amt (g_mint m)) (log m) in
     if negb to_pool then m1
     else
       let oc := if 0 <=? memo then Some memo else if memo =? (-2) then None else identify ch f in
@@ -425,7 +478,7 @@ Definition epoch_val (h : Z) (old : list cval) (vp : Z * Z) : cval :=
   end.
 
 Definition f_with_valsets (f : conf) (v : list (Z * list cval)) : conf :=
-  mkF v (crates f) (registered f) (allowl f) (epochs f) (bpe f) (cons f) (chans f) (minrate f).
+  mkF v (crates f) (registered f) (allowl f) (epochs f) (bpe f) (cons f) (chans f) (minrate f) (dtab f).
 
 (* ================================================================== the whole system *)
 Record state := mkS { prov : pstate; chains : list cstate }.
@@ -433,7 +486,7 @@ Record state := mkS { prov : pstate; chains : list cstate }.
 Inductive op :=
 | PFund (d amt : Z)
 | PCredit (c d raw : Z)
-| PReceive (ch memo d amt : Z) (ack_ok to_pool : bool)
+| PReceive (ch memo : Z) (segs : list Z) (amt : Z) (ack_ok to_pool : bool)
 | PBegin (env : benv)
 | PChangeDenoms (auth_ok : bool) (adds rems : list Z)
 | PSetAllow (c : Z) (ds : list Z)
@@ -458,29 +511,30 @@ Definition pstep (p : pstate) (o : op) : pstate :=
   match o with
   | PFund d amt => mkP (fund d amt m) f
   | PCredit c d raw => mkP (credit c d raw m) f
-  | PReceive ch memo d amt ack_ok to_pool => mkP (receive ch memo d amt ack_ok to_pool f m) f
+  | PReceive ch memo segs amt ack_ok to_pool =>
+    mkP (receive ch memo (bank_denom f ch segs) (cred_denom f ch segs) amt ack_ok to_pool f m) f
   | PBegin env => mkP (begin_block env f m) f
   | PChangeDenoms auth_ok adds rems =>
     if change_denoms_ok auth_ok adds rems
     then mkP m (mkF (valsets f) (crates f) (change_denoms adds rems (registered f)) (allowl f) (epochs f) (bpe f)
-                    (cons f) (chans f) (minrate f))
+                    (cons f) (chans f) (minrate f) (dtab f))
     else p
   | PSetAllow c ds =>
-    mkP m (mkF (valsets f) (crates f) (registered f) (put c ds (allowl f)) (epochs f) (bpe f) (cons f) (chans f) (minrate f))
+    mkP m (mkF (valsets f) (crates f) (registered f) (put c ds (allowl f)) (epochs f) (bpe f) (cons f) (chans f) (minrate f) (dtab f))
   | PSetCommission c v rate known =>
     if set_commission_ok c rate known f
     then mkP m (mkF (valsets f) (set_crate (c, v) rate (crates f)) (registered f) (allowl f) (epochs f) (bpe f)
-                    (cons f) (chans f) (minrate f))
+                    (cons f) (chans f) (minrate f) (dtab f))
     else p
   | PSetValset c vs => mkP m (f_with_valsets f (put c vs (valsets f)))
   | PEpoch c h vps =>
     mkP m (f_with_valsets f (put c (map (epoch_val h (lookup_list c (valsets f))) vps) (valsets f)))
   | PSetParams ep bp =>
-    mkP m (mkF (valsets f) (crates f) (registered f) (allowl f) ep bp (cons f) (chans f) (minrate f))
+    mkP m (mkF (valsets f) (crates f) (registered f) (allowl f) ep bp (cons f) (chans f) (minrate f) (dtab f))
   | _ => p
   end.
 
-Definition pdenom (c : cstate) (d : Z) : Z := match lookup d (c_dmap c) with Some x => x | None => d end.
+Definition wire (c : cstate) (d : Z) : list Z := lookup_list d (c_dmap c).
 
 Definition step (s : state) (o : op) : state :=
   match o with
@@ -497,7 +551,8 @@ Definition step (s : state) (o : op) : state :=
       | [] => s
       | (d, a) :: _ =>
         if ack_ok
-        then mkS (mkP (receive (c_chan c) (c_memo c) (pdenom c d) a true (c_to_pool c) (pf (prov s)) (pm (prov s)))
+        then mkS (mkP (receive (c_chan c) (c_memo c) (bank_denom (pf (prov s)) (c_chan c) (wire c d))
+                               (cred_denom (pf (prov s)) (c_chan c) (wire c d)) a true (c_to_pool c) (pf (prov s)) (pm (prov s)))
                       (pf (prov s)))
                  (upd_nth (Z.to_nat k) cdelivered (chains s))
         else mkS (prov s) (upd_nth (Z.to_nat k) crefund (chains s))
@@ -511,7 +566,7 @@ Definition run_ops (s : state) (ops : list op) : state := fold_left step ops s.
 (* ================================================================== wire interface *)
 (* input = [header, ops]
    header = [D, NV, cons [[id,chain,client,ccv,active]..], chans [[ch,c]..], [epochs,bpe,registered[],minrate],
-             chains [[frac,bpdt,allowed[],denoms[],memo,chan,to_pool,dmap[[cd,pd]..]]..]]
+             chains [[frac,bpdt,allowed[],denoms[],memo,chan,to_pool,dmap[[cd,segs[]]..]]..], dtab [[key[],id]..]]
    op     = [tag, args..]   (tags below)
    output = list of entries [rc, provider snapshot | [], k | -1, snapshot of chain k | []],
             the first entry being the initial state [0, psnap, -1, [csnap..]] *)
@@ -522,13 +577,14 @@ Definition dec_cinfo (t : tree) : cinfo :=
   mkI (tz (tnth 0 t)) (tbool (tnth 1 t)) (tbool (tnth 2 t)) (tbool (tnth 3 t)) (tbool (tnth 4 t)).
 Definition dec_chain (t : tree) : cstate :=
   mkC [] 0 (tz (tnth 0 t)) (tz (tnth 1 t)) (tzs (tnth 2 t)) (tzs (tnth 3 t)) [] (tz (tnth 4 t)) (tz (tnth 5 t))
-      (tbool (tnth 6 t)) (to_pairs (tnth 7 t)) [] [].
+      (tbool (tnth 6 t)) (map (fun e => (tz (tnth 0 e), tzs (tnth 1 e))) (tlist (tnth 7 t))) [] [].
 Definition empty_money : money := mkM [] [] [] [] [] [] [] [] [] [] [] [].
 Definition dec_state (hd : tree) : state :=
   let pp := tnth 4 hd in
   mkS (mkP empty_money
            (mkF [] [] (tzs (tnth 2 pp)) [] (tz (tnth 0 pp)) (tz (tnth 1 pp)) (map dec_cinfo (tlist (tnth 2 hd)))
-                (to_pairs (tnth 3 hd)) (tz (tnth 3 pp))))
+                (to_pairs (tnth 3 hd)) (tz (tnth 3 pp))
+                (map (fun e => (tzs (tnth 0 e), tz (tnth 1 e))) (tlist (tnth 6 hd)))))
       (map dec_chain (tlist (tnth 5 hd))).
 
 Definition dec_env (t : tree) : benv :=
@@ -540,7 +596,7 @@ Definition dec_op (t : tree) : op :=
   match a 0%nat with
   | 1 => PFund (a 1%nat) (a 2%nat)
   | 2 => PCredit (a 1%nat) (a 2%nat) (a 3%nat)
-  | 3 => PReceive (a 1%nat) (a 2%nat) (a 3%nat) (a 4%nat) (tbool (tnth 5 t)) (tbool (tnth 6 t))
+  | 3 => PReceive (a 1%nat) (a 2%nat) (tzs (tnth 3 t)) (a 4%nat) (tbool (tnth 5 t)) (tbool (tnth 6 t))
   | 4 => PBegin (dec_env t)
   | 5 => PChangeDenoms (tbool (tnth 1 t)) (tzs (tnth 2 t)) (tzs (tnth 3 t))
   | 6 => PSetAllow (a 1%nat) (tzs (tnth 2 t))
@@ -562,7 +618,9 @@ Definition psnap (D NV : Z) (p : pstate) : tree :=
        TL (map (row (outst m)) (range NV));
        TL (map (row (comm m)) (range NV));
        TL (map (fun i => row (alloc m) (ci_id i)) (cons (pf p)));
-       of_zs (registered (pf p)) ].
+       of_zs (registered (pf p));
+       (* number of credits stored under a denom outside the case's universe, per consumer: none *)
+       of_zs (map (fun _ => 0) (cons (pf p))) ].
 
 Definition csnap (c : cstate) : tree :=
   let row (a : Z) := of_zs (map (fun d => get (a, d) (c_bank c)) (c_denoms c)) in
@@ -624,7 +682,6 @@ Definition sumz (l : list Z) : Z := fold_right Z.add 0 l.
 Definition grid (t : tree) : list (list Z) := map tzs (tlist t).
 Definition col (g : list (list Z)) (d : Z) : list Z := map (fun r => nthz r d) g.
 Definition chk (b : bool) (n : Z) : list Z := if b then [] else [n].
-Definition list_eqb (a b : list Z) : bool := if list_eq_dec Z.eq_dec a b then true else false.
 
 (* provider snapshot accessors *)
 Definition sp_bank (p : tree) (a d : Z) : Z := nthz (trow (Z.to_nat a) (tnth 0 p)) d.
@@ -642,10 +699,12 @@ Definition index_of (c : Z) (f : conf) : Z :=
 Definition inflow_of (s : state) (o : op) : Z * Z :=
   match o with
   | PFund d amt => (d, amt)
-  | PReceive _ _ d amt ack _ => (d, if ack then amt else 0)
+  | PReceive ch _ segs amt ack _ => (bank_denom (pf (prov s)) ch segs, if ack then amt else 0)
   | Relay k ack =>
     match nth_error (chains s) (Z.to_nat k) with
-    | Some c => match c_inflight c with (d, a) :: _ => (pdenom c d, if ack then a else 0) | [] => (0, 0) end
+    | Some c => match c_inflight c with
+                | (d, a) :: _ => (bank_denom (pf (prov s)) (c_chan c) (wire c d), if ack then a else 0)
+                | [] => (0, 0) end
     | None => (0, 0)
     end
   | _ => (0, 0)
@@ -658,7 +717,9 @@ Definition mon_bank (D : Z) (p q : tree) (inflw : Z * Z) : list Z :=
     chk (tot q =? tot p + inflow) 1 ++
     (* nothing recorded by x/distribution exceeds what its account holds *)
     chk (sumz (col (sp_outst q) d) + sp_cpool q d <=? dec_of_int (sp_bank q DISTR d)) 2 ++
-    chk ((0 <=? sp_bank q POOL d) && (0 <=? sp_bank q DISTR d)) 3) (range D).
+    chk ((0 <=? sp_bank q POOL d) && (0 <=? sp_bank q DISTR d)) 3) (range D) ++
+  (* no credit sits under a denom that no account holds (outside the denoms the ICS-20 app delivered) *)
+  chk (forallb (fun x => x =? 0) (trow 6 q)) 20.
 
 (* expected payout of one BeginBlock, from the implementation's own pre-state: for every (c, d) whose
    credit was consumed, the coded shares of the eligible validators *)
@@ -744,15 +805,22 @@ Definition mon_begin (D NV : Z) (env : benv) (f : conf) (p q : tree) : list Z :=
          (range NV)) 8) (range D).
 
 (* crediting: before p, after q *)
-Definition mon_receive (D : Z) (f : conf) (p q : tree) (ch memo d amt : Z) (ack_ok to_pool : bool) : list Z :=
+Definition mon_receive (D : Z) (f : conf) (p q : tree) (ch memo amt : Z) (ack_ok to_pool : bool) : list Z :=
   let oc := if ack_ok && to_pool
             then (if 0 <=? memo then Some memo else if memo =? (-2) then None else identify ch f) else None in
   let target := match oc with Some c => if has_chain c f then index_of c f else -1 | None => -1 end in
+  (* the denom under which the ICS-20 application delivered the coins: read off the implementation's balances *)
+  let acct := if to_pool then POOL else OTHER in
+  let dobs := match find (fun d => negb (sp_bank q acct d =? sp_bank p acct d)) (range D) with Some d => d | None => -1 end in
+  (* the credit appears for the right consumer, under exactly that denom (so that it is payable from the
+     pool), by exactly the delivered amount *)
   chk (forallb (fun i =>
          let ci := index_of (ci_id i) f in
          forallb (fun d' =>
            let delta := nthz (nth (Z.to_nat ci) (sp_alloc q) []) d' - nthz (nth (Z.to_nat ci) (sp_alloc p) []) d' in
-           delta =? (if (ci =? target) && (d' =? d) then dec_of_int amt else 0)) (range D)) (cons f)) 9 ++
+           delta =? (if (ci =? target) && (d' =? dobs) then dec_of_int (sp_bank q acct d' - sp_bank p acct d') else 0))
+           (range D)) (cons f)) 9 ++
+  chk ((dobs =? -1) || (sp_bank q acct dobs - sp_bank p acct dobs =? (if ack_ok then amt else 0))) 21 ++
   chk (list_eqb (concat (sp_outst p)) (concat (sp_outst q)) && list_eqb (trow 1 p) (trow 1 q)) 10.
 
 (* consumer block: before c, after c' (snapshots), model-side configuration cs (before the block) *)
@@ -791,14 +859,14 @@ Fixpoint mon_steps (D NV : Z) (s : state) (lastp : tree) (lastc : list tree) (op
          mon_bank D lastp q (inflow_of s o) ++
          match o with
          | PBegin env => mon_begin D NV env (pf (prov s)) lastp q
-         | PReceive ch memo d amt ack_ok to_pool =>
-           mon_receive D (pf (prov s)) lastp q ch memo d amt ack_ok to_pool
+         | PReceive ch memo _ amt ack_ok to_pool =>
+           mon_receive D (pf (prov s)) lastp q ch memo amt ack_ok to_pool
          | Relay k' ack_ok =>
            match nth_error (chains s) (Z.to_nat k') with
            | Some c =>
              match c_inflight c with
              | (d, a) :: _ =>
-               mon_receive D (pf (prov s)) lastp q (c_chan c) (c_memo c) (pdenom c d) a ack_ok (c_to_pool c)
+               mon_receive D (pf (prov s)) lastp q (c_chan c) (c_memo c) a ack_ok (c_to_pool c)
              | [] => []
              end
            | None => []
